@@ -447,6 +447,7 @@ var c13Ops = []c13Op{
 	{name: "AddListItem(number,level 1)", kind: "list", arg: 1},
 	{name: "AddFootnote", kind: "fn"},
 	{name: "AddEndnote", kind: "en"},
+	{name: "work on another document (build, save, reopen, render as template)", kind: "other"},
 	{name: "GenerateTOC(levels 1-9)", kind: "toc"},
 	{name: "AutoGenerateTOC(levels 1-9)", kind: "autotoc"},
 	{name: "ToBytes", kind: "save"},
@@ -781,6 +782,8 @@ func (i *c13Inst) Apply(op int) (string, []rep.Violation) {
 				return
 			}
 			i.lastNT = true
+		case "other":
+			interfereRaw()
 		case "en":
 			if err := i.doc.AddEndnote("text with note", "note text"); err != nil {
 				outcome = "error"
